@@ -19,7 +19,7 @@ def fsm_shape(b, pops, digit_symbol=False):
     items = [scr, b.hidden('untouched')] + [b.str('num%d' % i, 's') for i in range(pops)]
     mem = b.list(items)
     sym = b.str('input_symbol', 's')
-    fsm = b.obj('fsm', FSMCLS, closed=False, memory=mem, input_symbol=sym, current_state=b.str('current_state', 's'),
+    fsm = b.obj('fsm', FSMCLS, sealed=False, memory=mem, input_symbol=sym, current_state=b.str('current_state', 's'),
                 next_state=b.any('next_state0'), action=b.any('action0'))
     return fsm, scr
 
@@ -187,7 +187,7 @@ class GetTransition(Contract):
     def shape(self, b):
         dt = b.opt('default_transition', lambda: b.tuple(b.opt('default.action', lambda: b.any('default.action')),
                                                          b.str('default.next', 's')))
-        me = b.obj('self', FSMCLS, closed=False, state_transitions=b.symdict('T', 2),
+        me = b.obj('self', FSMCLS, sealed=False, state_transitions=b.symdict('T', 2),
                    state_transitions_any=b.symdict('A', 1), default_transition=dt)
         return dict(self=me, input_symbol=b.str('input_symbol', 's'), state=b.str('state', 's'))
 
@@ -245,7 +245,7 @@ class FsmProcess(Contract):
     def shape(self, b):
         dt = b.opt('default_transition', lambda: b.tuple(b.opt('default.action', lambda: b.any('default.action')),
                                                          b.str('default.next', 's')))
-        me = b.obj('self', FSMCLS, closed=False, state_transitions=b.symdict('T', 2),
+        me = b.obj('self', FSMCLS, sealed=False, state_transitions=b.symdict('T', 2),
                    state_transitions_any=b.symdict('A', 1), default_transition=dt,
                    input_symbol=b.any('input_symbol0'), current_state=b.str('current_state', 's'),
                    next_state=b.any('next_state0'), action=b.any('action0'), memory=b.any('memory0'))
@@ -309,7 +309,7 @@ def ansi_shape(b):
                 t.w[i][j] = b.str('w[%d][%d]' % (i, j), 's') or ' '
         b.ghost('nextid', 0)
         return t
-    fsm = b.obj('fsm', FSMCLS, closed=False, current_state=b.str('current_state', 's'), initial_state=b.const('INIT'),
+    fsm = b.obj('fsm', FSMCLS, sealed=False, current_state=b.str('current_state', 's'), initial_state=b.const('INIT'),
                 input_symbol=b.any('input_symbol0'), next_state=b.any('next_state0'), action=b.any('action0'),
                 memory=b.any('memory0'))
     return screen_shape(b, cls=ANSICLS, extra=dict(state=fsm))
